@@ -1,6 +1,6 @@
 #include "c08.hpp"
 using namespace c08;
-MC_SUBCHECK(t1_log_a)
+MC_SUBCHECK(t1_log)
 {
   c08::run<Log, S3>();
   c08::run<Log, E2>();
